@@ -502,6 +502,42 @@ func genC19(g *G) {
 		}
 		g.Emit("evmsession", "100", "60", []string{"1-2-100-104", "3-1-5-9", "retry-7"}[g.Intn(3)], joinOr(xs, ";"))
 	}
+	// message ids of the Substrate handlers (regular + retry) and of the EVM retry handlers, each on three
+	// differently-historied handler objects
+	for i := 0; i < g.Count(150, 3000); i++ {
+		n := g.Intn(6)
+		ds, dsGood := []string{}, []string{}
+		for j := 0; j < n; j++ {
+			d := itoa(2 + g.Intn(3))
+			dsGood = append(dsGood, d)
+			if g.Intn(6) == 0 {
+				d = "x" + d
+			}
+			ds = append(ds, d)
+		}
+		s := int64(g.Intn(1000))
+		e := s + int64(g.Intn(6))
+		dom := itoa(1 + g.Intn(3))
+		g.Emit("subids", dom, itoa64(s), itoa64(e), joinOr(ds, ","))
+		g.Emit("subretryids", dom, itoa64(s), itoa64(e), itoa64(int64(g.Intn(900))), joinOr(ds, ","))
+		g.Emit("evmretry1ids", dom, itoa64(s), itoa64(e), joinOr(dsGood, ","))
+		evs := []string{}
+		for j := 0; j < 1+g.Intn(4); j++ {
+			evs = append(evs, itoa(1+g.Intn(4))+"."+itoa(1+g.Intn(4))+"."+itoa(g.Intn(1000)))
+		}
+		g.Emit("evmretry2ids", dom, itoa64(s), itoa64(e), strings.Join(evs, ","))
+	}
+	// signing session ids of the Substrate and the Bitcoin executor: two relayers, one of them used repeatedly
+	for _, st := range []string{"p", "e", "p,p", "e,p", "p,e", "e,e", "e,p,p"} {
+		for _, m := range []string{"1-3-10-14", "retry-1-3-10-14", "2-3-0-0"} {
+			g.Emit("subsession", m, st)
+		}
+	}
+	for n := 1; n <= 3; n++ {
+		for np := 1; np <= 2; np++ {
+			g.Emit("btcsession", g.Pick([]string{"1-4-100", "2-4-7", "retry-1-4"}), itoa(n), itoa(np))
+		}
+	}
 	// the same delivery twice on one Executor object
 	for _, sp := range []string{"n:p", "n:p;n:p;n:p", "100:p;n:p", "n:e;n:p;41:p;n:p", "40:p;n:p;n:p;0:p;0:p"} {
 		g.Emit("evmsession2", "100", "60", "1-2-102-102", sp)
